@@ -304,6 +304,20 @@ func newWorld(rng *rand.Rand, id string) *world {
 			break
 		}
 	}
+	// one world in three: B is a LOOK-ALIKE of A - the two 20-byte addresses differ in one byte only, and in a way that
+	// text-style comparisons fold away (an ASCII letter in the other case; two bytes that are both invalid UTF-8). The
+	// decision is drawn from A's own bytes, so the stream of the generator is the same as before.
+	switch w.A[7] % 6 {
+	case 0:
+		i := int(w.A[8]) % 20
+		w.A[i] = 0x6c
+		w.B = w.A
+		w.B[i] = 0x4c
+	case 1:
+		w.A[19] = 0xf8
+		w.B = w.A
+		w.B[19] = 0xf9
+	}
 	w.hasB = rng.Intn(8) != 0
 	w.explicitZero = rng.Intn(3) == 0
 
